@@ -770,7 +770,7 @@ func genIngressObjs(r *Rng, w *World, nss []string) {
 		rt := &Route{NS: sv.ns, Name: fmt.Sprintf("rt%d", i), ToKind: Pick(r, []string{"Service", "Service", "", "Other"}), ToName: sv.name}
 		if r.P(30) {
 			o := Pick(r, svcs)
-			rt.Alt = append(rt.Alt, [2]string{Pick(r, []string{"Service", ""}), o.name})
+			rt.Alt = append(rt.Alt, [2]string{Pick(r, []string{"Service", "Service", "", "Other"}), o.name})
 		}
 		sp := Pick(r, sv.ports)
 		switch k := r.Intn(100); {
